@@ -468,7 +468,7 @@ pub fn run(cfg: &RunCfg) -> CheckReport {
     rep.assume("reference tokenizers in the harness; whitespace = char::is_whitespace; invalid UTF-8 delimited by the standard library's maximal-subpart rule, char tokens over invalid bytes only required to be <= 3 bytes, not UTF-8, ASCII-free");
     rep.assume("for the two unicode tokenizers only losslessness and non-emptiness are required (as stated)");
     rep.assume("every input is additionally tokenized as a view into a larger buffer (4 neighbour pairs: CR before / LF after, letters, ZWJ before / combining mark after, the two halves of a split multi-byte character) and must give the tokens of the input on its own");
-    rep.assume("one TextDiffConfig object is run through an Eulerian circuit over all ordered pairs of its constructors on the same two texts; each diff's old_slices / new_slices must be the direct tokenizer's output (quick tier: inputs of up to 3 bytes; thorough: all)");
+    rep.assume("one TextDiffConfig object is run through an Eulerian circuit over all ordered pairs of its constructors on the same two texts; each diff's old_slices / new_slices must be the direct tokenizer's output (quick tier: inputs of up to 3 bytes; thorough: up to 6 bytes)");
     let l = cfg.tier.pick(5, 6);
     let letters: Vec<&[u8]> = CHARS.iter().map(|s| s.as_bytes()).collect();
     let ex = explore_alphabet(cfg, &letters, l);
